@@ -24,9 +24,9 @@ func init() {
 		Property: "C14", EngineName: "chainsim",
 		New:       func(tier string) core.Engine { return &chainsim{tier: tier} },
 		QuickRuns: 40000, QuickCapS: 60, ThoroughRun: 2000000, ThoroughCap: 1200,
-		Rule: "a case = (entry API kind, chain of 1-8 frames each one of 12 script frame kinds or 14 native calling conventions, payload kind raised by the innermost frame / interrupt tick / call-depth limit); distinct = distinct (entry, frame-kind sequence, payload kind); non-trivial = the chain has at least one native frame and the abrupt state crossed at least one script catch/finally frame",
+		Rule: "a case = (entry API kind, chain of 1-8 frames each one of 13 script frame kinds or 14 native calling conventions, payload kind raised by the innermost frame / interrupt tick / call-depth limit, what the Go-implemented return() and next() of every host iterator consumed by a for-of / destructuring frame do); distinct = distinct (entry, frame-kind sequence, payload kind); non-trivial = the chain has at least one native frame and the abrupt state crossed at least one script catch/finally frame",
 		Real: realComponents,
-		Stub: []string{"every native frame of the chain (host functions of each calling convention)", "the catch/finally recorders C and F", "the raiser (innermost frame) and the interrupting watchdog (tick hook, same goroutine)"},
+		Stub: []string{"every native frame of the chain (host functions of each calling convention)", "the host-implemented iterators (objects made by Go whose [Symbol.iterator], next and return are Go functions)", "the catch/finally recorders C and F", "the raiser (innermost frame) and the interrupting watchdog (tick hook, same goroutine)"},
 		Assumptions: []string{
 			"host natives re-raise what they get from a nested call (panic(err) / return err / return fmt.Errorf(\"%w\")); the one swallowing host frame swallows *Exception only: a host that swallows an InterruptedError is outside the property",
 			"an arbitrary Go error handed back by an ExportTo'd func(...) (T, error) (documented: the GoError's value) is returned reflect-style, never panicked with: a non-goja panic value is a foreign panic by definition",
@@ -34,9 +34,12 @@ func init() {
 			"Try+Object.Get as the outermost entry receives catchable payloads only, and chains with a promise-job frame are entered through a job-draining API",
 			"stack top frame is asserted exactly only for script throws that reach the host without passing a catch-rethrow frame; otherwise only a non-empty stack",
 			"*Exception pointer identity is asserted only when the raiser panicked with / returned an *Exception and no script catch or finally frame lies between it and the host",
+			"ECMA-262 IteratorClose: an exception thrown by return() is ignored when the loop is left by a throw and replaces the completion when it is left by return/break or when a destructuring pattern ends; a non-goja panic in return() is not an exception and must reach the host in both cases; an iterator whose next() throws is not closed",
+			"a foreign panic raised synchronously ends the outermost call before the promise job queue is drained: jobs pending at that point need not run",
 			"after rt.Interrupt() inside a native that is not followed by any VM instruction the interrupt stays pending (documented: it only works while in JavaScript code); the host clears it before reusing the runtime",
 		},
-		FaultKinds: chPayloadNames[1:],
+		FaultKinds: append(append([]string{}, chPayloadNames[1:]...), "iter-next-throw", "iter-return-panic-value", "iter-return-panic-exception", "iter-return-go-error",
+			"iter-return-foreign-string", "iter-return-foreign-struct", "iter-return-foreign-runtime-error", "iter-return-interrupt"),
 	})
 }
 
@@ -93,6 +96,24 @@ func (e *chainsim) Run(t *core.Tape, want bool) *core.Result {
 		payload = cpIntrNative + S.Draw(3)
 	}
 	faultPos := S.Draw(1 << 16) // tick / depth position, scaled to the fault-free run
+	// what the Go-implemented return() / next() of the host iterators do (drawn for every frame position so that the tape
+	// layout does not depend on the frame kinds)
+	hasRetIntr, hasRetForeign := false, false
+	for i := range frames {
+		ra, na := chRetActTable[S.Draw(len(chRetActTable))], chNextActTable[S.Draw(len(chNextActTable))]
+		if frames[i].kind == cjHostIter {
+			frames[i].retAct, frames[i].nextAct = ra, na
+			hasRetIntr = hasRetIntr || ra == retInterrupt
+			hasRetForeign = hasRetForeign || chRetForeign(ra)
+		}
+	}
+	// the chain the transfer model sees: the uncatchable fault components taken out
+	modelFrames := append([]chFrame(nil), frames...)
+	for i := range modelFrames {
+		if modelFrames[i].retAct == retInterrupt {
+			modelFrames[i].retAct = retNothing
+		}
+	}
 
 	flavour := wFlavour
 	switch {
@@ -103,7 +124,7 @@ func (e *chainsim) Run(t *core.Tape, want bool) *core.Result {
 	case chPayloadGoErr(payload):
 		flavour = crReflect
 	}
-	if entry == ceTryGet && (hasJob || !(payload == cpNone || chPayloadCatchable(payload))) {
+	if entry == ceTryGet && (hasJob || hasRetIntr || hasRetForeign || !(payload == cpNone || chPayloadCatchable(payload))) {
 		entry = ceRunProgram
 	}
 
@@ -121,6 +142,8 @@ func (e *chainsim) Run(t *core.Tape, want bool) *core.Result {
 			c += fmt.Sprint(f.sel % nJobSel)
 		case cjGen:
 			c += fmt.Sprint(f.sel % nGenSel)
+		case cjHostIter:
+			c += fmt.Sprintf("%d.%d.%d", f.sel%nIterSel, f.retAct, f.nextAct)
 		}
 		codes = append(codes, c)
 	}
@@ -135,14 +158,26 @@ func (e *chainsim) Run(t *core.Tape, want bool) *core.Result {
 	}
 	defer func() { goja.VerifTick = prev; curChain = nil }()
 
-	exact := !chPayloadUncatch(payload)
+	exact := !chPayloadUncatch(payload) && !hasRetIntr
 
-	// exec runs the chain once on a fresh runtime. pl: the payload armed (cpNone for the counterfactual).
-	exec := func(pl int, tickAt int64, depthLimit int, measure bool) (out *chOutcome, aborted string) {
+	// exec runs the chain once on a fresh runtime. counterfactual: the uncatchable fault components are taken out (the
+	// raiser's interrupt, the tick interrupt, the depth limit, interrupts raised by iterator return() methods).
+	exec := func(counterfactual bool, tickAt int64, depthLimit int, measure bool) (out *chOutcome, aborted string) {
 		rt := goja.New()
 		rt.SetRandSource(func() float64 { return 0.5 })
-		r := &chRun{rt: rt, frames: frames, n: n, entry: entry, payload: pl, flavour: flavour, logs: make([][]string, n+2),
-			tickAt: tickAt, measureDepth: measure, maxTik: 200000, exact: exact || pl == cpNone}
+		pl, fr := payload, frames
+		if counterfactual {
+			fr = modelFrames
+			if chPayloadUncatch(pl) {
+				pl = cpNone
+			}
+		}
+		r := &chRun{rt: rt, frames: fr, n: n, entry: entry, payload: pl, flavour: flavour, logs: make([][]string, n+2),
+			tickAt: tickAt, measureDepth: measure, maxTik: 200000, exact: exact || counterfactual, segOf: chSegments(frames)}
+		if !counterfactual {
+			r.armIntr = hasRetIntr || pl == cpIntrNative || pl == cpIntrTick
+			r.armOvf = depthLimit >= 0
+		}
 		out = &chOutcome{run: r}
 		defer func() {
 			if x := recover(); x != nil {
@@ -155,12 +190,14 @@ func (e *chainsim) Run(t *core.Tape, want bool) *core.Result {
 		}()
 		r.prepareValues()
 		root := r.rootState()
-		r.m0 = chPredict(frames, entry, chState{kind: csNormal, normal: "ok"})
-		r.m = chPredict(frames, entry, root)
+		r.m = chPredict(modelFrames, entry, root, r.iv)
 		r.registerRecorders()
 		for k := 1; k <= n; k++ {
 			if chIsNative(frames[k-1].kind) {
 				r.registerFrame(k)
+			}
+			if frames[k-1].kind == cjHostIter {
+				r.registerIterator(k)
 			}
 		}
 		if flavour != crJS {
@@ -266,6 +303,9 @@ func (e *chainsim) Run(t *core.Tape, want bool) *core.Result {
 				fmt.Fprintf(&sb, " (variant %d)", f.sel%nJobSel)
 			case cjGen:
 				fmt.Fprintf(&sb, " (variant %d)", f.sel%nGenSel)
+			case cjHostIter:
+				fmt.Fprintf(&sb, " (%s; native return(): %s; native next(): %s)", chIterSelNames[f.sel%nIterSel], chRetActNames[f.retAct],
+					[...]string{"normal", "first call throws", "second call throws"}[f.nextAct])
 			}
 			sb.WriteByte('\n')
 		}
@@ -283,9 +323,9 @@ func (e *chainsim) Run(t *core.Tape, want bool) *core.Result {
 			}
 		}
 		show("run", fo)
-		show("fault-free run of the same chain", cf)
-		if fo != nil && fo.run.exact {
-			sb.WriteString("---- model:\n")
+		show("run of the same chain without the uncatchable fault components", cf)
+		if fo != nil {
+			sb.WriteString("---- model (without the uncatchable fault components):\n")
 			for seg, l := range fo.run.m.logs {
 				if len(l) > 0 {
 					fmt.Fprintf(&sb, "  log[seg %d]: %s\n", seg, strings.Join(l, " "))
@@ -295,22 +335,17 @@ func (e *chainsim) Run(t *core.Tape, want bool) *core.Result {
 		return sb.String()
 	}
 
-	// ---- counterfactual (needed for the uncatchable kinds and for foreign panics) -------------------------------
+	// ---- counterfactual: the same chain and the same catchable / foreign faults, without the uncatchable components ----
 	var cf *chOutcome
-	needCF := chPayloadUncatch(payload) || chPayloadForeign(payload)
-	if needCF {
+	if !exact {
 		var ab string
-		cf, ab = exec(cpNone, -1, -1, payload == cpDepth)
+		cf, ab = exec(true, -1, -1, payload == cpDepth)
 		if ab != "" {
-			res.OutOfScope = "fault-free run: " + ab
+			res.OutOfScope = "counterfactual run: " + ab
 			return res
 		}
-		if cf.panicked {
-			res.OutOfScope = fmt.Sprintf("fault-free run panicked: %T", cf.panicV)
-			return res
-		}
-		// the fault-free run also validates the model's normal path
-		e.judgeExact(res, cf, cf.run.m0, shape+" none", raiserLine, func() string { return render(cf, nil) })
+		// it is itself judged exactly by the model
+		e.judgeExact(res, cf, cf.run.m, shape+" counterfactual", raiserLine, func() string { return render(cf, nil) })
 		if res.Violation != nil {
 			return res
 		}
@@ -326,7 +361,7 @@ func (e *chainsim) Run(t *core.Tape, want bool) *core.Result {
 	case cpDepth:
 		depthLimit = faultPos % (cf.maxDepth + 2)
 	}
-	fo, ab := exec(payload, tickAt, depthLimit, false)
+	fo, ab := exec(false, tickAt, depthLimit, false)
 	r := fo.run
 	detail := func() string { return render(fo, cf) }
 	if ab != "" {
@@ -334,29 +369,36 @@ func (e *chainsim) Run(t *core.Tape, want bool) *core.Result {
 		return res
 	}
 
-	if exact {
-		e.judgeExact(res, fo, r.m, res.Sig, raiserLine, detail)
-	} else {
+	struck := !exact && !fo.panicked && chIsUncatchable(fo.err)
+	if struck {
 		e.judgeUncatchable(res, fo, cf, detail)
-	}
-	if chPayloadForeign(payload) && res.Violation == nil {
-		// prefix-of-counterfactual for foreign panics too: nothing script-visible ran because of the unwinding
-		for seg := range fo.logs {
-			if d := chPrefixDiv(fo.logs[seg], cf.logs[seg]); d >= 0 {
-				res.Fail("foreign-panic-swallowed", res.Sig, fmt.Sprintf("script-visible code ran after a non-goja panic: event #%d %s of segment %d is not what the fault-free run does at that point", d, fo.logs[seg][d], seg), detail())
+	} else {
+		// no uncatchable condition reached the host: the run must BE the run without them
+		e.judgeExact(res, fo, r.m, res.Sig, raiserLine, detail)
+		if !exact && res.Violation == nil && !fo.panicked {
+			switch {
+			case r.tickAt >= 0:
+				res.Fail("uncatchable-error-type", "uncatchable-error-type "+res.Sig, fmt.Sprintf("the call completed (%s) although Interrupt() was called at VM tick %d", chOutcomeDesc(fo), r.tickAt), detail())
+			case r.intrRaised && !fo.pending:
+				res.Fail("uncatchable-error-type", "uncatchable-error-type "+res.Sig, fmt.Sprintf("the call completed (%s) and the interrupt raised inside a native function is neither delivered nor pending", chOutcomeDesc(fo)), detail())
+			case r.intrRaised:
+				res.Count("interrupt-left-pending(no-vm-instruction-followed)", 1)
 			}
 		}
 	}
 
 	// ---- counters, signature ---------------------------------------------------------------------------------------
-	if r.fired || (payload == cpDepth && fo.err != nil) {
+	for _, what := range r.iterFired {
+		res.Count("fault."+what, 1)
+	}
+	if r.fired || (payload == cpDepth && struck) {
 		res.Count("fault."+chPayloadNames[payload], 1)
 	} else if payload != cpNone {
 		res.Count("fault-not-reached", 1)
 	}
 	m := r.m
 	abruptCrossed := false
-	if exact && payload != cpNone {
+	if !struck {
 		cnt := func(b bool, name string) {
 			if b {
 				res.Count(name, 1)
@@ -372,8 +414,16 @@ func (e *chainsim) Run(t *core.Tape, want bool) *core.Result {
 		cnt(m.crossDynamic, "dynamic-object-frame")
 		cnt(m.crossCtor, "constructor-frame")
 		cnt(m.crossExport, "exportto-frame")
+		cnt(m.iterClosedOnThrow, "host-iterator-closed-by-throw")
+		cnt(m.iterClosedOnReturn, "host-iterator-closed-by-return/break")
+		cnt(m.retThrowIgnored, "return()-throw-ignored-during-throw")
+		cnt(m.retThrowReplaced, "return()-throw-replaces-normal-completion")
+		cnt(m.retForeignOnThrow, "foreign-panic-in-return()-during-throw")
+		cnt(m.retForeignOnReturn, "foreign-panic-in-return()-after-normal-completion")
+		cnt(m.iterNotClosedAbrupt, "host-iterator-passed-by-foreign-panic")
+		cnt(m.nextThrew, "host-iterator-next()-threw")
 		abruptCrossed = m.crossCatchOrFinally
-	} else if !exact && (r.fired || fo.err != nil) {
+	} else {
 		for _, f := range frames {
 			switch f.kind {
 			case cjRethrow, cjFinally, cjBoth, cjSwallow, cjWrap:
@@ -452,8 +502,11 @@ func (e *chainsim) judgeExact(res *core.Result, fo *chOutcome, m *chModel, sig s
 		fail(r.failRule, "%s", r.failMsg)
 		return
 	}
+	// A foreign panic raised synchronously (by an iterator's return() above a promise frame) ends the call before the job
+	// queue is drained: pending jobs never run. Otherwise a foreign panic raised inside a job surfaces when the queue is drained.
 	final := m.in[0]
-	if m.deferred != nil {
+	syncForeign := final.kind == csForeign
+	if m.deferred != nil && !syncForeign {
 		final = *m.deferred
 	}
 	// ---- the outcome the host sees
@@ -463,25 +516,21 @@ func (e *chainsim) judgeExact(res *core.Result, fo *chOutcome, m *chModel, sig s
 			fail("foreign-panic-swallowed", "a non-goja panic raised in a native function did not reach the host: the call returned (%s)", chOutcomeDesc(fo))
 			return
 		}
-		switch r.payload {
-		case cpForeignNilMap, cpForeignIndex:
-			want := "assignment to entry in nil map"
-			if r.payload == cpForeignIndex {
-				want = "index out of range [5] with length 3"
-			}
+		switch {
+		case final.foreignRT != "":
 			re, ok := fo.panicV.(runtime.Error)
-			if !ok || !strings.Contains(re.Error(), want) {
-				fail("foreign-panic-identity", "the host recovered %T, want the runtime.Error %q", fo.panicV, want)
-				return
-			}
-		case cpForeignError:
-			if er, ok := fo.panicV.(error); !ok || er != r.foreignVal.(error) {
-				fail("foreign-panic-identity", "the host recovered %T, not the error value the native panicked with", fo.panicV)
+			if !ok || !strings.Contains(re.Error(), final.foreignRT) {
+				fail("foreign-panic-identity", "the host recovered %T, want the runtime.Error %q", fo.panicV, final.foreignRT)
 				return
 			}
 		default:
-			if fo.panicV != r.foreignVal {
-				fail("foreign-panic-identity", "the host recovered %T %v, want %T %v", fo.panicV, fo.panicV, r.foreignVal, r.foreignVal)
+			if _, isErr := final.foreign.(error); isErr {
+				if er, ok := fo.panicV.(error); !ok || er != final.foreign.(error) {
+					fail("foreign-panic-identity", "the host recovered %T, not the error value the native panicked with", fo.panicV)
+					return
+				}
+			} else if fo.panicV != final.foreign {
+				fail("foreign-panic-identity", "the host recovered %T %v, want %T %v", fo.panicV, fo.panicV, final.foreign, final.foreign)
 				return
 			}
 		}
@@ -539,8 +588,9 @@ func (e *chainsim) judgeExact(res *core.Result, fo *chOutcome, m *chModel, sig s
 	// ---- the event log
 	for seg := range m.logs {
 		got, wantl := fo.logs[seg], m.logs[seg]
-		if final.kind == csForeign && m.deferred != nil {
-			// where the job queue is drained decides which frames above the job are unwound by the panic: prefix only
+		if final.kind == csForeign && (m.deferred != nil && !syncForeign || syncForeign && seg > 0) {
+			// where the job queue is drained decides which frames above the job are unwound by the panic, and jobs pending when
+			// a synchronous foreign panic ends the call are not run: prefix only
 			if d := chPrefixDiv(got, wantl); d >= 0 {
 				fail("foreign-panic-swallowed", "script-visible code ran after a non-goja panic: segment %d event #%d is %s", seg, d, got[d])
 				return
@@ -576,7 +626,8 @@ func (e *chainsim) judgeExact(res *core.Result, fo *chOutcome, m *chModel, sig s
 	}
 }
 
-// judgeUncatchable: interrupt inside the innermost native, interrupt at a VM tick, call-depth limit.
+// judgeUncatchable: an interrupt (raised inside the innermost native, at a VM tick, by an iterator's return()) or the
+// call-depth limit struck and the host got an uncatchable error. cf: the run without these components.
 func (e *chainsim) judgeUncatchable(res *core.Result, fo, cf *chOutcome, detail func() string) {
 	r := fo.run
 	fail := func(rule, f string, a ...interface{}) {
@@ -586,64 +637,35 @@ func (e *chainsim) judgeUncatchable(res *core.Result, fo, cf *chOutcome, detail 
 		fail(r.failRule, "%s", r.failMsg)
 		return
 	}
-	if fo.panicked {
-		fail("uncatchable-error-type", "a Go panic reached the host (%s) instead of the documented error", chOutcomeDesc(fo))
-		return
-	}
-	// nothing script-visible may run because of the unwinding: every log segment is a prefix of the fault-free one
+	// nothing script-visible may run because of the unwinding: every log segment is a prefix of the counterfactual one
 	for seg := range fo.logs {
 		if d := chPrefixDiv(fo.logs[seg], cf.logs[seg]); d >= 0 {
-			fail("uncatchable-observed-by-script", "script-visible code ran because of an uncatchable condition: segment %d event #%d %s is not what the fault-free run does at that point (%s)", seg, d, fo.logs[seg][d], evAtS(cf.logs[seg], d))
+			fail("uncatchable-observed-by-script", "script-visible code ran because of an uncatchable condition: segment %d event #%d %s is not what the run without it does at that point (%s)", seg, d, fo.logs[seg][d], evAtS(cf.logs[seg], d))
 			return
 		}
 	}
-	if fo.err == nil {
-		// not struck: the limit was never reached / no VM instruction ran after Interrupt(). Then the run IS the fault-free run.
-		switch {
-		case r.payload == cpIntrTick && r.tickAt >= 0:
-			fail("uncatchable-error-type", "the call returned normally (%s) although Interrupt() was called at VM tick %d", chOutcomeDesc(fo), r.tickAt)
-			return
-		case r.payload == cpIntrNative && r.fired && !fo.pending:
-			fail("uncatchable-error-type", "the call returned normally (%s) and the interrupt raised inside the innermost native is neither delivered nor pending", chOutcomeDesc(fo))
-			return
+	if !r.checkUncatchable("host ("+chEntryNames[r.entry]+")", fo.err) {
+		fail(r.failRule, "%s", r.failMsg)
+		return
+	}
+	direct := false
+	switch fo.err.(type) {
+	case *goja.InterruptedError, *goja.StackOverflowError:
+		direct = true
+	}
+	if !direct {
+		if _, ovf := fo.err.(*goja.StackOverflowError); ovf || chErrKind(fo.err) == "StackOverflowError" {
+			res.Count("overflow-through-wrapping-native", 1)
+		} else {
+			res.Count("interrupt-through-wrapping-native", 1)
 		}
-		for seg := range fo.logs {
-			if len(fo.logs[seg]) != len(cf.logs[seg]) {
-				fail("event-log-mismatch", "the call returned normally but segment %d of the event log stops early", seg)
-				return
-			}
-		}
-		if chOutcomeDesc(fo) != chOutcomeDesc(cf) {
-			fail("event-log-mismatch", "the call returned %s, the fault-free run returns %s", chOutcomeDesc(fo), chOutcomeDesc(cf))
-			return
-		}
-		if r.payload == cpIntrNative && fo.pending {
-			res.Count("interrupt-left-pending(no-vm-instruction-followed)", 1)
-		}
-	} else {
-		if !r.checkUncatchable("host ("+chEntryNames[r.entry]+")", fo.err) {
-			fail(r.failRule, "%s", r.failMsg)
-			return
-		}
-		direct := false
-		switch fo.err.(type) {
-		case *goja.InterruptedError, *goja.StackOverflowError:
-			direct = true
-		}
-		if !direct {
-			if r.payload == cpDepth {
-				res.Count("overflow-through-wrapping-native", 1)
-			} else {
-				res.Count("interrupt-through-wrapping-native", 1)
-			}
-		}
-		if r.nativeGotOvf {
-			res.Count("overflow-inside-native-nested-call", 1)
-		}
-		if fo.pending {
-			fail("runtime-not-reusable", "the interrupt flag is still set after the call returned the InterruptedError")
-			return
-		}
+	}
+	if r.nativeGotOvf {
+		res.Count("overflow-inside-native-nested-call", 1)
+	}
+	if fo.pending {
+		fail("runtime-not-reusable", "the interrupt flag is still set after the call returned the InterruptedError")
+		return
 	}
 	if fo.reuse != "" {
 		fail("runtime-not-reusable", "%s", fo.reuse)
